@@ -75,11 +75,32 @@ func mkv(s string) *pb.TypedValue {
 		return &pb.TypedValue{Value: &pb.TypedValue_JsonVal{JsonVal: []byte("1")}}
 	case "bytes":
 		return &pb.TypedValue{Value: &pb.TypedValue_BytesVal{BytesVal: []byte{1}}}
+	case "decimal":
+		return &pb.TypedValue{Value: &pb.TypedValue_DecimalVal{DecimalVal: &pb.Decimal64{Digits: 5678, Precision: 2}}}
+	case "decimal-p18":
+		return &pb.TypedValue{Value: &pb.TypedValue_DecimalVal{DecimalVal: &pb.Decimal64{Digits: 5678, Precision: 18}}}
+	case "decimal-p19":
+		return &pb.TypedValue{Value: &pb.TypedValue_DecimalVal{DecimalVal: &pb.Decimal64{Digits: 5678, Precision: 19}}}
+	case "decimal-pmax":
+		return &pb.TypedValue{Value: &pb.TypedValue_DecimalVal{DecimalVal: &pb.Decimal64{Digits: -1, Precision: 4294967295}}}
+	case "float":
+		return &pb.TypedValue{Value: &pb.TypedValue_FloatVal{FloatVal: 1.5}}
+	case "uint":
+		return &pb.TypedValue{Value: &pb.TypedValue_UintVal{UintVal: 7}}
+	case "ascii":
+		return &pb.TypedValue{Value: &pb.TypedValue_AsciiVal{AsciiVal: "x"}}
+	case "any":
+		return &pb.TypedValue{Value: &pb.TypedValue_AnyVal{}}
+	case "badjson":
+		return &pb.TypedValue{Value: &pb.TypedValue_JsonIetfVal{JsonIetfVal: []byte("{")}}
+	case "nested-leaflist":
+		return &pb.TypedValue{Value: &pb.TypedValue_LeaflistVal{LeaflistVal: &pb.ScalarArray{Element: []*pb.TypedValue{{}, {Value: &pb.TypedValue_LeaflistVal{LeaflistVal: &pb.ScalarArray{}}}, {Value: &pb.TypedValue_DecimalVal{DecimalVal: &pb.Decimal64{Digits: 1, Precision: 40}}}}}}}
 	}
 	panic(s)
 }
 
-var allVals = []string{"<nil>", "<empty>", "int1", "int2", "str", "bool", "double", "leaflist", "json", "bytes"}
+var allVals = []string{"<nil>", "<empty>", "int1", "int2", "str", "bool", "double", "leaflist", "json", "bytes", "decimal", "decimal-p19"}
+var displayVals = []string{"<nil>", "<empty>", "int1", "str", "leaflist", "json", "bytes", "decimal", "decimal-p18", "decimal-p19", "decimal-pmax", "float", "uint", "ascii", "any", "badjson", "nested-leaflist", "bool", "double"}
 var fewVals = []string{"<nil>", "int1", "bool"}
 
 func mkprefix(s string) *pb.Path {
@@ -206,6 +227,8 @@ var stateOps = []msg{
 	{"t", false, 1, []updS{{"meta/connectError", "str"}}, nil},
 	{"t", false, 3, nil, []string{"*"}},
 	{"t+depr", false, 1, []updS{{"<depr a>", "int1"}}, nil},
+	{"t", false, 1, []updS{{"<depr a>", "int1"}}, nil}, // deprecated path below a target-only prefix
+	{"t+origin", false, 1, []updS{{"a", "decimal"}}, nil},
 }
 
 func states(maxLen int) [][]int {
@@ -405,7 +428,7 @@ func (r respSpec) build() *pb.SubscribeResponse {
 func respAlphabet() []respSpec {
 	out := []respSpec{{kind: "nooneof"}, {kind: "sync"}, {kind: "error"}, {kind: "emptyupdate"}}
 	for _, p := range []string{"<nil>", "<empty>", "a", "a/b", "<depr a>"} {
-		for _, v := range []string{"<nil>", "<empty>", "int1", "str", "leaflist", "json", "bytes"} {
+		for _, v := range displayVals {
 			out = append(out, respSpec{"update", p, v}, respSpec{"update-noprefix", p, v})
 		}
 		for _, k := range []string{"depr-json", "depr-badjson", "depr-bytes", "depr-other", "delete", "delete-noprefix"} {
@@ -525,7 +548,7 @@ func (harness) Specs(tier string) []seqmc.Spec {
 		}
 	}
 	return []seqmc.Spec{
-		specIngest("ingest, full grammar", [][]int{{}, {0}, {1}, {3}, {6}}, grammar(true)),
+		specIngest("ingest, full grammar", [][]int{{}, {0}, {1}, {3}, {6}, {10}}, grammar(true)),
 		specIngest("ingest, single-part grammar", states(2), grammar(false)),
 		specDisplay(2),
 	}
